@@ -29,6 +29,12 @@ def make_actions(rng, kind, pool):
     if kind == "hash": return [10 + i for i in ids]
     if kind == "str": return ["a%d" % i for i in ids]
     if kind == "dense": return [(i, i + 1) for i in ids]
+    if kind == "rowdense":      # the dense row types coba's own pipes hand out (they implement Dense without being lists or tuples)
+        from coba.pipes.rows import HeadDense, LazyDense
+        return [HeadDense([i, i + 1], {"a": 0, "b": 1}) if i % 2 else LazyDense([i, i + 1]) for i in ids]
+    if kind == "rowsparse":
+        from coba.pipes.rows import LazySparse
+        return [LazySparse({"k": i, "z": 1}) for i in ids]
     return [{"k": i, "z": 1} for i in ids]
 
 def valid(pmf, n, tol=1e-9):
@@ -39,7 +45,8 @@ def seed_pick(rng):
 
 def drive(ctx, name, make, rng, reqs):
     from coba.learners import BanditEpsilonLearner, BanditUCBLearner, CorralLearner
-    kind = rng.choice(["hash", "hash", "str", "dense", "sparse"])
+    kind = rng.choice(["hash", "hash", "str", "dense", "sparse", "rowdense", "rowsparse"])
+    single_start = rng.random() < 0.15      # the history opens with one and the same single action offered again and again
     T = rng.randrange(5, 61)
     lrn, desc = make()
     fixed_n = desc.get("fixed_n")
@@ -48,6 +55,7 @@ def drive(ctx, name, make, rng, reqs):
     hist = []
     for t in range(T):
         acts = make_actions(rng, kind, 6)
+        if single_start and t < 3 and not fixed_n: acts = make_actions(random.Random(desc.get("seed", 1) if isinstance(desc.get("seed", 1), int) else 1), kind, 6)[:1]
         if fixed_n: acts = (acts + make_actions(rng, kind, 6) * 3)[:fixed_n]; acts = [a for i, a in enumerate(acts) if a not in acts[:i]]
         if fixed_n and len(acts) != fixed_n: continue
         ctxv = rng.choice([None, 1, (1, 2)])
